@@ -374,6 +374,11 @@ class ZIPHandler(BaseHandler):
         if not self.config.getboolean("handlers.ZIP.ZIPHandler", "enabled"):
             return False
 
+        # Archives are only opened from the real file system: is_zipfile() and
+        # the index cache work on real paths, not on members of another archive.
+        if type(self.vfs) is not VFS_Real:
+            return False
+
         pattern = re.compile(self.config.get("handlers.ZIP.ZIPHandler", "pattern"))
 
         basename = self.selector
